@@ -16,13 +16,17 @@
 package daemon
 
 import (
+	"context"
 	"encoding/json"
 	"errors"
 	"fmt"
+	"io"
 	"math/rand"
+	"net"
 	"net/http"
 	"net/http/httptest"
 	"os"
+	"path/filepath"
 	"reflect"
 	"sort"
 	"strconv"
@@ -254,6 +258,94 @@ func verifAccessCodec(t *testing.T, path string, emit verifAccessEmit) {
 	emit(map[string]interface{}{"k": "codec-summary", "cases": n, "mismatches": bad, "parsed_ok": okCases})
 }
 
+// verifAccessListener drives a few real connections through the real ucrednetListener (SO_PEERCRED ->
+// ucrednet -> RemoteAddr string -> ucrednetGet) into the real Command.ServeHTTP, on the snapd and the snap
+// socket, and compares with the table row for (valid credentials, that socket, our uid, no user, no connection).
+func verifAccessListener(t *testing.T, d *Daemon, rowsByClass map[string][]verifAccessRow, emit verifAccessEmit) {
+	tmp := t.TempDir()
+	dirs.SetRootDir(tmp)
+	defer dirs.SetRootDir("")
+	uidc := "user"
+	if os.Getuid() == 0 {
+		uidc = "root"
+	}
+	classes := map[string]accessChecker{
+		"open": openAccess{}, "root": rootAccess{}, "snap": snapAccess{}, "authenticated": authenticatedAccess{},
+		"ifaceOpen": interfaceOpenAccess{Interfaces: []string{"verif-iface"}},
+	}
+	n, bad := 0, 0
+	for sockc, path := range map[string]string{"snapd": dirs.SnapdSocket, "snap": dirs.SnapSocket, "other": filepath.Join(tmp, "other.socket")} {
+		if err := os.MkdirAll(filepath.Dir(path), 0755); err != nil {
+			t.Fatal(err)
+		}
+		l, err := net.Listen("unix", path)
+		if err != nil {
+			t.Fatalf("cannot listen on %s: %v", path, err)
+		}
+		var ran bool
+		var seen string
+		mux := http.NewServeMux()
+		for name, ac := range classes {
+			cc := &Command{Path: "/" + name, ReadAccess: ac, d: d}
+			cc.GET = func(c *Command, r *http.Request, user *auth.UserState) Response {
+				ran = true
+				seen = r.RemoteAddr
+				return verifAccessStubResponse{}
+			}
+			mux.Handle("/"+name, cc)
+		}
+		srv := &http.Server{Handler: mux}
+		go srv.Serve(&ucrednetListener{Listener: l})
+		cli := &http.Client{Transport: &http.Transport{DialContext: func(ctx context.Context, _, _ string) (net.Conn, error) {
+			return net.Dial("unix", path)
+		}, DisableKeepAlives: true}}
+		for name, ac := range classes {
+			cls, _, _, _ := verifAccessClassify(ac)
+			want := ""
+			key := fmt.Sprintf("valid|%s|%s|none|no|none|F|F", sockc, uidc)
+			for _, row := range rowsByClass[cls.key()] {
+				if row.K == key {
+					want = row.D
+				}
+			}
+			ran, seen = false, ""
+			rsp, err := cli.Get("http://localhost/" + name)
+			if err != nil {
+				t.Fatalf("request over %s failed: %v", path, err)
+			}
+			io.Copy(io.Discard, rsp.Body)
+			rsp.Body.Close()
+			got := "forbidden"
+			switch {
+			case ran:
+				got = "served"
+			case rsp.StatusCode == 401:
+				got = "unauthorized"
+			case rsp.StatusCode != 403:
+				got = fmt.Sprintf("status-%d", rsp.StatusCode)
+			}
+			n++
+			why := ""
+			if got != want {
+				why = "decision"
+			} else if ran {
+				uc, _, err := ucrednetGetWithInterfaces(seen)
+				if err != nil || uc == nil || int(uc.Pid) != os.Getpid() || int(uc.Uid) != os.Getuid() || uc.Socket != path {
+					why = "peer-credentials"
+				}
+			}
+			if why != "" {
+				bad++
+			}
+			if why != "" || n <= 2 {
+				emit(map[string]interface{}{"k": "listener", "why": why, "socket": sockc, "class": cls, "got": got, "spec": want, "remote_addr": seen, "pid": os.Getpid(), "uid": os.Getuid()})
+			}
+		}
+		srv.Close()
+	}
+	emit(map[string]interface{}{"k": "listener-summary", "connections": n, "mismatches": bad, "uid": os.Getuid()})
+}
+
 func TestVerifAccess(t *testing.T) {
 	outPath := os.Getenv("VERIF_OUT")
 	if outPath == "" {
@@ -349,6 +441,8 @@ func TestVerifAccess(t *testing.T) {
 		return verifAccessCaller, nil
 	}
 	defer func() { cgroupSnapNameFromPid = oldCgroup }()
+
+	verifAccessListener(t, d, rowsByClass, emit)
 
 	const pid = 4242
 	sockets := map[string][]string{"snapd": {dirs.SnapdSocket}, "snap": {dirs.SnapSocket}, "other": {"/run/verif-other.socket", ""}}
